@@ -344,7 +344,7 @@ class Recognizer(IRecognizer):
         if len(recognized_subclasses) == 0:
             message = 'Failed to recognize {}'.format(
                     type_to_desc(expected_type))
-            if top:
+            if top or not causes:
                 message += '\n{}'.format(indent(str(node.start_mark), '  '))
             return set(), (message, causes)
 
@@ -355,8 +355,8 @@ class Recognizer(IRecognizer):
                 if typ in recognized_subclasses:
                     return {typ}, REC_OK
 
-            message = ('Could not determine which of the following types'
-                       ' this is: {}').format(cjoin(
+            message = ('{}\nCould not determine which of the following types'
+                       ' this is: {}').format(node.start_mark, cjoin(
                            'or', map(type_to_desc, recognized_subclasses)))
             return recognized_subclasses, (message, causes)
 
@@ -430,8 +430,9 @@ class Recognizer(IRecognizer):
 
         if recognized_types is None:
             raise RecognitionError(
-                ('Could not recognize for type {},'
-                 ' is it registered?').format(expected_type.__name__))
+                ('{}\nCould not recognize for type {},'
+                 ' is it registered?').format(
+                     node.start_mark, expected_type.__name__))
         logger.debug('Recognized types {} matching {}'.format(
             recognized_types, expected_type))
         return recognized_types, result
